@@ -12,8 +12,10 @@
    control flow of verifier.go.  Shared with the model are only data types
    (exchange, signature, version, headers) and the leaf functions the conditions
    talk about: URL parsing, certificate-chain parsing, the signed-message
-   serialisation, header lookup, and the MICE decoder (whose meaning is the
-   subject of C14/C15).  Cryptography and I/O are parameters.                   *)
+   serialisation, header lookup (hdr_value_ci: header field names are
+   case-insensitive, RFC 7230 3.2 - the field is found whatever the letter case
+   of its map key), and the MICE decoder (whose meaning is the subject of
+   C14/C15).  Cryptography and I/O are parameters.                              *)
 From WP Require Import Base.Prelude Model.Url Model.Http Model.Mice Model.CertChain
                        Model.StructHdr Model.Sxg.
 Open Scope N_scope.
@@ -109,9 +111,9 @@ Section Policy.
      the payload checks against it (records of at most 16384 bytes) *)
   Definition PayloadOk (e : exchange) (s : signature) (p : bytes) : Prop :=
     s_integrity s = integrity_of (e_ver e) /\
-    hdr_value (e_resph e) (digest_field_of (e_ver e)) <> [] /\
+    hdr_value_ci (e_resph e) (digest_field_of (e_ver e)) <> [] /\
     decode_all H256 (mice_draft_of (e_ver e)) (e_payload e)
-               (hdr_value (e_resph e) (digest_field_of (e_ver e))) 16384 512 = Ok (p, REOF).
+               (hdr_value_ci (e_resph e) (digest_field_of (e_ver e))) 16384 512 = Ok (p, REOF).
 
   (* impl-02 4 step 4 (b1/b2): safe, cacheable method, no stateful request header *)
   Definition RequestOk (e : exchange) : Prop :=
@@ -121,11 +123,11 @@ Section Policy.
 
   (* RFC 7234 section 3, for a shared cache, no request *)
   Definition StorableShared (e : exchange) : Prop :=
-    let cc := hdr_value (e_resph e) (s2b "Cache-Control") in
+    let cc := hdr_value_ci (e_resph e) (s2b "Cache-Control") in
     status_known (e_status e) = true /\
     ~ has_dir cc "no-store" /\
     ~ has_dir cc "private" /\
-    (hdr_value (e_resph e) (s2b "Expires") <> [] \/
+    (hdr_value_ci (e_resph e) (s2b "Expires") <> [] \/
      has_dir cc "max-age" \/ has_dir cc "s-maxage" \/
      In (e_status e) default_cacheable \/
      has_dir cc "public").
@@ -133,7 +135,7 @@ Section Policy.
   (* 3.5 step 8 and 4 step 4 (b3) *)
   Definition ResponseOk (e : exchange) : Prop :=
     has_request (e_ver e) = false ->
-    hdr_value (e_resph e) (s2b "Content-Type") <> [] /\ StorableShared e.
+    hdr_value_ci (e_resph e) (s2b "Content-Type") <> [] /\ StorableShared e.
 
   Definition Accepts (e : exchange) (tsec tnsec : Z) (s : signature) (p : bytes) : Prop :=
     SameOrigin (s_validity s) (e_uri e) /\
